@@ -346,3 +346,38 @@ func (r *Rng) Read(p []byte) (int, error) {
 
 // Intn returns a value in [0, n).
 func (r *Rng) Intn(n int) int { return int(r.Uint64() % uint64(n)) }
+
+// EnumDev calls f(level, v) for every vector v over the product of sizes with at most bound
+// non-zero coordinates, level by level (0 deviations first), each vector exactly once.
+// Coordinate value 0 is the default of its dimension. v is reused between calls.
+func EnumDev(sizes []int, bound int, f func(level int, v []int)) {
+	n := len(sizes)
+	if bound > n {
+		bound = n
+	}
+	v := make([]int, n)
+	var rec func(level, start, left int)
+	rec = func(level, start, left int) {
+		if left == 0 {
+			f(level, v)
+			return
+		}
+		for p := start; p <= n-left; p++ {
+			for x := 1; x < sizes[p]; x++ {
+				v[p] = x
+				rec(level, p+1, left-1)
+			}
+			v[p] = 0
+		}
+	}
+	for lvl := 0; lvl <= bound; lvl++ {
+		rec(lvl, 0, lvl)
+	}
+}
+
+// CountDev returns the number of vectors EnumDev visits.
+func CountDev(sizes []int, bound int) int64 {
+	var n int64
+	EnumDev(sizes, bound, func(int, []int) { n++ })
+	return n
+}
